@@ -19,7 +19,9 @@ COQ_CHECK = "Idle.check_case"
 COQ_CASE_TYPE = "Idle.case"
 COQ_BRANCHES = ("Idle.case_branches", "Idle.n_branches")
 SHARD = 200
-RULE = ("one connection (plain or TLS) to a real http.Server with tymeout T in {-2..12} accepted at tyme t0; 2-30 "
+RULE = ("one connection (plain or TLS) to a real http.Server with tymeout T in {-2..12} (given as tymeout= to http.Server, which "
+        "builds its tcp.Server/ServerTls, or configured on a tcp.Server/ServerTls injected as servant, with or without "
+        "the same tymeout= argument) accepted at tyme t0; 2-30 "
         "service passes, each after advancing virtual tyme by 0..2T+2 units, with the client idle, delivering 1-4 "
         "chunks of an unfinished request head, completing a persistent (HTTP/1.1 keep-alive) request or completing a "
         "non-persistent (Connection: close) request whose response is queued in txbs; per pass the fake kernel accepts "
@@ -133,6 +135,16 @@ def directed():
         {"tls": False, "T": 2, "t0": 0, "hdrs": 9, "passes": [P(0, "rx", 1), P(1, "req", 2), P(3, "idle"), P(9, "req", 1), P(9, "idle")]},
         {"tls": False, "T": 2, "t0": 0, "hdrs": 14, "passes": [P(0, "rx", 1), P(1, "req", 2), P(3, "idle"), P(9, "req", 1), P(9, "idle")]},
         {"tls": False, "T": 2, "t0": 0, "hdrs": 21, "passes": [P(0, "rx", 1), P(1, "req", 2), P(3, "idle"), P(9, "req", 1), P(9, "idle")]},
+        # the tymeout configured on an injected servant (no tymeout argument to http.Server) is the one that counts
+        # (seeded change C12-10 witness): below, above and equal to the http default 5.0, and disabled
+        {"tls": False, "T": 2, "t0": 0, "inject": 1, "passes": [P(0, "idle"), P(1, "idle"), P(1, "idle"), P(3, "idle")]},
+        {"tls": True, "T": 2, "t0": 0, "inject": 1, "passes": [P(0, "rx", 1), P(1, "rx", 1), P(2, "idle"), P(3, "idle")]},
+        {"tls": False, "T": 9, "t0": 0, "inject": 1, "passes": [P(0, "idle"), P(5, "idle"), P(3, "rx", 1), P(8, "idle"), P(1, "idle")]},
+        {"tls": True, "T": 9, "t0": 0, "inject": 1, "passes": [P(0, "idle"), P(5, "idle"), P(3, "idle"), P(1, "idle")]},
+        {"tls": False, "T": 0, "t0": 0, "inject": 1, "passes": [P(0, "idle"), P(5, "idle"), P(30, "idle")]},
+        {"tls": False, "T": 5, "t0": 0, "inject": 1, "passes": [P(0, "idle"), P(4, "idle"), P(1, "idle")]},
+        {"tls": False, "T": 3, "t0": 0, "inject": 2, "passes": [P(0, "idle"), P(2, "idle"), P(1, "idle")]},
+        {"tls": True, "T": 8, "t0": 0, "inject": 2, "passes": [P(0, "reqdefer", 1, NEVER), P(5, "idle"), P(2, "idle"), P(1, "idle")]},
         # client keeps sending while the response is stuck: that is traffic
         {"tls": False, "T": 3, "t0": 0, "passes": [P(0, "reqclose", 1, cap=0), P(2, "rx", 1, cap=0), P(2, "rx", 1, cap=0),
                                                     P(2, "idle", cap=0), P(1, "idle", cap=0)]},
@@ -205,7 +217,7 @@ def generate(rng, tier):
                 last = now
             passes.append([dt, a, c])
         out.append({"tls": tls, "T": T, "t0": t0, "passes": passes, "unit": rng.choice([1.0, 1.0, 0.25, 0.03125, 8.0]),
-                    "hdrs": rng.choice([0] + list(range(1, 61)))})
+                    "hdrs": rng.choice([0] + list(range(1, 61))), "inject": rng.choice([0, 0, 1, 1, 2])})
     return out
 
 
@@ -309,6 +321,29 @@ def _norm(p):
     return (p[0], p[1], p[2] if len(p) > 2 else ALL)
 
 
+def _make_server(case, world, tymeout):
+    """The three ways the tymeout of an http Server gets configured: `inject` 0 = http.Server(tymeout=T) building
+    its own tcp.Server / ServerTls; 1 = a tcp.Server / ServerTls(tymeout=T) injected as servant, no tymeout argument
+    to http.Server (the servant's own tymeout is the configured one); 2 = injected servant and the same tymeout
+    argument."""
+    from hio.core.http import serving as hserving
+    from hio.core.tcp import serving as tserving
+    inject = int(case.get("inject", 0))
+    if not inject:
+        kw = dict(port=world.port, host="127.0.0.1", tymeout=tymeout, app=_app)
+        if case["tls"]:
+            kw.update(scheme="https", context=fk.FakeContext())
+        return hserving.Server(**kw)
+    if case["tls"]:
+        servant = tserving.ServerTls(host="127.0.0.1", port=world.port, tymeout=tymeout, context=fk.FakeContext())
+    else:
+        servant = tserving.Server(host="127.0.0.1", port=world.port, tymeout=tymeout)
+    kw = dict(servant=servant, app=_app)
+    if inject == 2:
+        kw["tymeout"] = tymeout
+    return hserving.Server(**kw)
+
+
 def run_impl(case):
     from hio.core.http import serving as hserving
     from hio.base import tyming
@@ -317,10 +352,7 @@ def run_impl(case):
     tymist = tyming.Tymist(tyme=float(case["t0"]) * u, tock=u)
     out = []
     with fk.patched(world):
-        kw = dict(port=world.port, host="127.0.0.1", tymeout=float(case["T"]) * u, app=_app)
-        if case["tls"]:
-            kw.update(scheme="https", context=fk.FakeContext())
-        srv = hserving.Server(**kw)
+        srv = _make_server(case, world, float(case["T"]) * u)
         srv.wind(tymist.tymen())
         if not srv.reopen():
             raise AssertionError("reopen failed")
@@ -510,6 +542,7 @@ def shrink(case):
 def distribution(cases, obs):
     d = {"tls": sum(1 for c in cases if c["tls"]), "T<=0": sum(1 for c in cases if c["T"] <= 0),
          "closed": 0, "with_nonpersistent_response": 0, "with_blocked_send_while_pending": 0,
+         "with_injected_servant": sum(1 for c in cases if c.get("inject")),
          "with_header_variants": sum(1 for c in cases if c.get("hdrs")),
          "with_response_in_progress": sum(1 for o in obs if isinstance(o, dict) and any(q.get("inprog") for q in o.get("passes", []))),
          "with_wind": sum(1 for c in cases if any(_norm(p)[1][0] == "wind" for p in c["passes"]))}
